@@ -275,6 +275,9 @@ class Endpoint:
                     with ep.lock:
                         ep.log.append(entry)
                     return self._reply(400, "text/plain", b"request is not UTF-8")
+                # parameters / headers this endpoint does not know are ignored, but logged
+                entry["x_param"] = q.get("x-extra", [])
+                entry["x_header"] = self.headers.get("X-Extra")
                 with ep.lock:
                     ep.log.append(entry)
                     try:
